@@ -3,6 +3,7 @@ let () =
   let layer = if Array.length Sys.argv > 1 then Sys.argv.(1) else "" in
   let run = match layer with
     | "codec" -> L_codec.run
+    | "prog" -> L_prog.run
     | _ -> prerr_endline "usage: vmodel <codec>"; exit 2 in
   try
     while true do
